@@ -5,7 +5,9 @@
 (*   [ id |-> n, nn |-> number of nodes, z |-> rank of physical time 0,      *)
 (*     ev  |-> << <<node, kind(0 local,1 send,2 recv), src event|0, pt>> >>, *)
 (*     lam |-> << Lamport stamp of event i >>,                               *)
-(*     vc  |-> << vector stamp of event i (sequence of nn counters) >>,      *)
+(*     vc  |-> << vector stamp of event i (nn counters, missing key = 0) >>, *)
+(*     k0  |-> << node_ids (indices) VectorClock n was constructed with >>,  *)
+(*     vk  |-> << key set of the vector of event i (sorted indices) >>,      *)
 (*     hl  |-> << <<physical rank, logical, node>> of event i >>,            *)
 (*     vm[i][j] = 1 iff the real vc_i.happened_before(vc_j) is true,        *)
 (*     hm[i][j] = 1 iff the real HLCTimestamp hl_i < hl_j is true ]          *)
@@ -20,16 +22,19 @@ Traces == JsonDeserialize(IOEnv.TRACE_FILE)
 NT == Len(Traces)
 
 VARIABLES ti, l, bad, mbad, mpos
-tvars == <<lam, vc, hlc, ev, hb, ti, l, bad, mbad, mpos>>
+tvars == <<lam, vc, hlc, ev, hb, mem, vk, ti, l, bad, mbad, mpos>>
 
 Tr == Traces[ti]
 KindOf(k) == IF k = 0 THEN "local" ELSE IF k = 1 THEN "send" ELSE "recv"
+SeqSet(q) == { q[i] : i \in 1..Len(q) }
 \* results of the real comparisons, as 0/1 matrices
 VLT(i, j) == Tr.vm[i][j] = 1
 HLT(i, j) == Tr.hm[i][j] = 1
 
 \* z = rank of physical time 0 (the initial HLC timestamp) among the trace's readings
 Fresh(nn, z) ==
+    /\ mem = "trace"
+    /\ vk = [n \in 1..nn |-> IF NT = 0 THEN {n} ELSE SeqSet(Traces[1].k0[n])]
     /\ lam = [n \in 1..nn |-> 0]
     /\ vc = [n \in 1..nn |-> [k \in 1..nn |-> 0]]
     /\ hlc = [n \in 1..nn |-> <<z, 0>>]
@@ -49,9 +54,10 @@ PropVerdict(j, h) ==
     ELSE ""
 
 \* drift: observed stamps / comparison results vs the model
-ModelVerdict(j, ml, mv, mh) ==
+ModelVerdict(j, ml, mv, mh, mk) ==
     IF Tr.lam[j] # ml THEN "MODEL:lamport_stamp"
     ELSE IF Tr.vc[j] # mv THEN "MODEL:vector_stamp"
+    ELSE IF SeqSet(Tr.vk[j]) # mk THEN "MODEL:vector_keys"
     ELSE IF Tr.hl[j] # mh THEN "MODEL:hlc_stamp"
     ELSE IF \E i \in 1..(j - 1) : \/ VLT(i, j) # VcLess(Tr.vc[i], Tr.vc[j])
                                   \/ VLT(j, i) # VcLess(Tr.vc[j], Tr.vc[i])
@@ -65,6 +71,7 @@ WellFormed(j) ==
     LET E == Tr.ev[j] IN
     /\ E[1] \in 1..Tr.nn /\ E[2] \in {0, 1, 2}
     /\ Len(Tr.lam) = Len(Tr.ev) /\ Len(Tr.vc) = Len(Tr.ev) /\ Len(Tr.hl) = Len(Tr.ev)
+    /\ Len(Tr.vk) = Len(Tr.ev) /\ Len(Tr.k0) = Tr.nn
     /\ IF E[2] = 2 THEN E[3] \in 1..(j - 1) /\ Tr.ev[E[3]][2] = 1 /\ Tr.ev[E[3]][1] # E[1]
        ELSE E[3] = 0
 
@@ -78,7 +85,8 @@ StepEv(j) ==
         mv == IF k = 2 THEN VcRecv(vc[n], n, ev[s].vc) ELSE VcTick(vc[n], n)
         mh == IF k = 2 THEN HlcRecv(hlc[n], p, ev[s].hlc) ELSE HlcNow(hlc[n], p)
         h2 == HbExtend(hb, ev, j, n, s)
-        mvd == ModelVerdict(j, ml, mv, <<mh[1], mh[2], n>>)
+        mk == IF s = 0 THEN vk[n] ELSE vk[n] \cup ev[s].vk
+        mvd == ModelVerdict(j, ml, mv, <<mh[1], mh[2], n>>, mk)
     IN /\ AppendEv(n, KindOf(k), s, p, ml, mv, mh)
        /\ bad' = PropVerdict(j, h2)
        /\ IF mbad = "" /\ mvd # "" THEN mbad' = mvd /\ mpos' = j ELSE UNCHANGED <<mbad, mpos>>
@@ -92,7 +100,9 @@ Finish(verdict, pos) ==
                  [k \in 1..(IF ti < NT THEN Traces[ti + 1].nn ELSE 1) |-> 0]]
     /\ hlc' = [n \in 1..(IF ti < NT THEN Traces[ti + 1].nn ELSE 1) |->
                   <<(IF ti < NT THEN Traces[ti + 1].z ELSE 0), 0>>]
-    /\ ev' = <<>> /\ hb' = {}
+    /\ ev' = <<>> /\ hb' = {} /\ mem' = mem
+    /\ vk' = [n \in 1..(IF ti < NT THEN Traces[ti + 1].nn ELSE 1) |->
+                 IF ti < NT THEN SeqSet(Traces[ti + 1].k0[n]) ELSE {n}]
 
 TNext ==
     /\ ti <= NT
